@@ -358,6 +358,7 @@ func genC04Concurrent(r *rand.Rand, pl *plan.Plan) {
 		// template of the same domain is being stored (see runC04Orphan)
 		pl.Cfg["c_orphan"] = int64(3 + r.IntN(6))
 		pl.Cfg["c_orphan_first"] = int64(r.IntN(2))
+		pl.Cfg["c_orphan_two"] = int64(r.IntN(2)) // a second session malforms X at the same time
 		genSchedule(r, pl, 8, 3000)
 		return
 	}
@@ -558,9 +559,29 @@ func runC04Orphan(pl *plan.Plan, out *plan.Outcome, env *Env, cp *collector.Coll
 	for i := range startB {
 		startB[i], startC[i] = make(chan struct{}), make(chan struct{})
 	}
-	done := make(chan struct{}, 2*rounds)
+	done := make(chan struct{}, 3*rounds)
 	hdr := ipfixref.Header{}
 	overlaps := 0
+	two := cfgOr(pl, "c_orphan_two", 0) == 1
+	startD := make([]chan struct{}, rounds)
+	for i := range startD {
+		startD[i] = make(chan struct{})
+	}
+	if two {
+		// another session of the same domain sends its own malformed redefinition of X: two
+		// withdrawals of one template at once (whichever comes second finds nothing to withdraw)
+		env.Go("D", func() {
+			for k := 0; k < rounds; k++ {
+				Block("round", func() { <-startD[k] })
+				bad := mkT(uint32(100+k), 256, "c_a").templateMsg(hdr)
+				bad = bad[:len(bad)-2]
+				bad[2], bad[3] = byte(len(bad)>>8), byte(len(bad))
+				bad[18], bad[19] = byte((len(bad)-16)>>8), byte(len(bad)-16)
+				Block("decode", func() { cp.VerifDecodePacket(bad, "10.0.1.4:999") })
+				done <- struct{}{}
+			}
+		})
+	}
 	inB, inC := false, false
 	env.Go("C", func() {
 		for k := 0; k < rounds; k++ {
@@ -628,8 +649,12 @@ func runC04Orphan(pl *plan.Plan, out *plan.Outcome, env *Env, cp *collector.Coll
 			}
 			close(startB[k])
 			close(startC[k])
+			close(startD[k])
 			Block("join", func() { <-done })
 			Block("join", func() { <-done })
+			if two {
+				Block("join", func() { <-done })
+			}
 		}
 		cp.CloseMsgChan()
 	})
